@@ -300,9 +300,91 @@ class HConn:
         self.closed = True
 
 
+class TrackLock:
+    """stands in for Server.mutex (a real RLock inside): remembers which thread holds it"""
+
+    def __init__(self, inner):
+        self.inner = inner
+        self.owner = None
+        self.depth = 0
+
+    def acquire(self, *a, **kw):
+        got = self.inner.acquire(*a, **kw)
+        if got:
+            self.owner = threading.get_ident()
+            self.depth += 1
+        return got
+
+    def release(self):
+        self.depth -= 1
+        if self.depth == 0:
+            self.owner = None
+        self.inner.release()
+
+    def __enter__(self):
+        self.acquire()
+        return self
+
+    def __exit__(self, *a):
+        self.release()
+
+    def held(self):
+        return self.owner == threading.get_ident()
+
+
+class GuardedDict(dict):
+    """stands in for Server.id_to_obj / id_to_refcount: every mutation made while the calling
+    thread does not hold Server.mutex is recorded as (table, operation, function)"""
+
+    def _note(self, op):
+        if not self._lock.held():
+            self._log.append([self._name, op, sys._getframe(2).f_code.co_name])
+
+    def __setitem__(self, k, v):
+        self._note('store')
+        dict.__setitem__(self, k, v)
+
+    def __delitem__(self, k):
+        self._note('del')
+        dict.__delitem__(self, k)
+
+    def pop(self, *a):
+        self._note('pop')
+        return dict.pop(self, *a)
+
+    def popitem(self):
+        self._note('popitem')
+        return dict.popitem(self)
+
+    def clear(self):
+        self._note('clear')
+        dict.clear(self)
+
+    def update(self, *a, **kw):
+        self._note('update')
+        dict.update(self, *a, **kw)
+
+    def setdefault(self, *a):
+        self._note('setdefault')
+        return dict.setdefault(self, *a)
+
+
+def guard_tables(srv):
+    """-> the list that collects table mutations made without the server's mutex"""
+    log = []
+    lock = TrackLock(srv.mutex)
+    for name in ('id_to_obj', 'id_to_refcount'):
+        d = GuardedDict(getattr(srv, name))
+        d._lock, d._log, d._name = lock, log, name
+        setattr(srv, name, d)
+    srv.mutex = lock
+    return log
+
+
 def run_server_case(case):
     srv = Server(REGISTRY, None, KEY, 'pickle')
     srv.stop_event = threading.Event()
+    unlocked = guard_tables(srv)
     ids = Ids(srv)
     out = []
     try:
@@ -326,7 +408,8 @@ def run_server_case(case):
             replies = list(c.sent)
             out.append(dict(read=c.reads >= 1, outs=replies, exit=code, closed=c.closed,
                             snap=ids.snapshot(), newids=newids,
-                            order_ok=_order_ok(c.log)))
+                            order_ok=_order_ok(c.log), unlocked=list(unlocked)))
+            del unlocked[:]
     finally:
         srv.listener.close()
     return out
@@ -385,9 +468,41 @@ def proxy_call(p, meth, args):
     return p._callmethod(meth, args)
 
 
-def client_op(m, srv, ids, proxies, op):
+def client_op(m, srv, ids, proxies, op, leaked=None):
     """one user-level operation; proxies = live proxies in creation order (model: y_proxies)"""
     kind = op[0]
+    if kind == 'vanish':
+        # the holder disappears WITHOUT a decref reaching the server, through the two branches of
+        # the real BaseProxy._decref that release nothing: a proxy that knows its manager is
+        # finalised while the manager's state is not STARTED (`else: ... manager already shutdown`);
+        # a copy (no manager, state None) is finalised with a connection that fails (its key is
+        # refused: AuthenticationError, swallowed by `except Exception`)
+        k = op[1]
+        if k >= len(proxies):
+            return ['noop']
+        p = proxies[k]
+        if leaked is not None:
+            leaked.append(p._token.id)
+        if p._manager is not None:
+            st = p._manager._state
+            old = st.value
+            st.value = managers.State.SHUTDOWN
+            try:
+                del proxies[k]
+                p = None
+                gc.collect()
+            finally:
+                st.value = old
+        else:
+            fin = p._close
+            args = list(fin._args)
+            assert args[0] is p._token and isinstance(args[1], bytes)
+            args[1] = b'not-the-key'
+            fin._args = tuple(args)
+            del proxies[k]
+            p = fin = None
+            gc.collect()
+        return ['ok']
     if kind == 'create':
         _, pid, typ, args = op
         res, v = client_outcome(lambda: _do_create(m, typ, [dec_arg(a, typ) for a in args]))
@@ -458,16 +573,18 @@ def run_client_case(case):
     m = InprocManager(address=None, authkey=KEY)
     srv = m.get_server()
     srv.stop_event = threading.Event()
+    unlocked = guard_tables(srv)
     t = threading.Thread(target=srv.accepter, daemon=True)
     t.start()
     m._address = srv.address
     m._state.value = managers.State.STARTED
     ids = Ids(srv)
     proxies = []
+    leaked = []
     out = []
     for op in case:
         n0 = len(ids.mid)
-        obs = client_op(m, srv, ids, proxies, op)
+        obs = client_op(m, srv, ids, proxies, op, leaked)
         gc.collect()                   # finalisers of unreachable proxies run here, in this thread
         ids.scan()
         newid = len(ids.mid) - 1 if len(ids.mid) > n0 else 0
@@ -475,7 +592,8 @@ def run_client_case(case):
     # drop everything: what stays in the table now has no proxy anywhere
     del proxies[:]
     gc.collect()
-    out.append(dict(final_objects=len(srv.id_to_obj) - 1, final_refcounts=len(srv.id_to_refcount)))
+    out.append(dict(final_objects=len(srv.id_to_obj) - 1, final_refcounts=len(srv.id_to_refcount),
+                    expected_leaked=len(set(leaked)), unlocked=list(unlocked)))
     # the accepter thread cannot be stopped (`while True` + `except OSError: continue` would spin
     # on a closed listener): leave it blocked in accept(); one idle thread + one fd per case
     return out
@@ -577,6 +695,8 @@ def run_procs_case(case):
             ask(pid, ('dropall',))
     mine = []                            # the parent's own proxies (pid 10)
     handles = []                         # owner pid of every live proxy, creation order
+    hids = []                            # its referent's ident (raw), same order
+    leaked = []                          # idents whose holder was killed (never released)
     out = []
 
     def local_index(k):
@@ -600,6 +720,7 @@ def run_procs_case(case):
                 if isinstance(v, BaseProxy):
                     mine.append(v)
                     handles.append(10)
+                    hids.append(v._token.id)
                 v = None
                 obs = res
             elif kind == 'spawn':             # proxy k (the parent's) is a Process argument of a
@@ -618,6 +739,7 @@ def run_procs_case(case):
                 workers[pid] = (pr, a)
                 ask(pid, ('ping',))
                 handles.append(pid)
+                hids.append(hids[k])
                 obs = ['ok']
             elif kind == 'copy':
                 _, k, pid = op
@@ -634,6 +756,7 @@ def run_procs_case(case):
                         res = ask(pid, ('recv', blob))
                     if res[0] == 'ok':
                         handles.append(pid)
+                        hids.append(hids[k])
                     obs = res
             elif kind == 'drop':
                 k = op[1]
@@ -644,6 +767,7 @@ def run_procs_case(case):
                     else:
                         ask(handles[k], ('drop', local_index(k)))
                     handles.pop(k)
+                    hids.pop(k)
                     obs = ['ok']
             elif kind == 'call':
                 _, k, meth, args = op
@@ -662,11 +786,13 @@ def run_procs_case(case):
                         res = ask(handles[k], ('call', local_index(k), meth, args))
                     if res[0] == 'proxy':
                         handles.append(handles[k])
+                        hids.append(res[1])
                     obs = res
             elif kind == 'fork':              # a new client process forked while proxies exist
                 pid = op[1]
                 spawn(pid, mine)
                 ask(pid, ('ping',))          # its after-fork increfs are done
+                hids.extend([hids[i] for i, h in enumerate(handles) if h == 10])
                 handles.extend([pid] * len(mine))
                 obs = ['ok']
             elif kind == 'exit':              # orderly exit: finalisers release every proxy
@@ -674,8 +800,20 @@ def run_procs_case(case):
                 ask(pid, ('exit',))
                 workers[pid][0].join(20)
                 del workers[pid]
+                hids[:] = [i for i, h in zip(hids, handles) if h != pid]
                 handles[:] = [h for h in handles if h != pid]
                 obs = ['ok']
+            elif kind == 'kill':              # SIGKILL: no finaliser runs, the server only sees EOF
+                pid = op[1]                   # on the connections of that process
+                pr, c = workers[pid]
+                os.kill(pr.pid, signal.SIGKILL)
+                pr.join(20)
+                c.close()
+                del workers[pid]
+                leaked += [i for i, h in zip(hids, handles) if h == pid]
+                hids[:] = [i for i, h in zip(hids, handles) if h != pid]
+                handles[:] = [h for h in handles if h != pid]
+                obs = ['ok'] if pr.exitcode == -signal.SIGKILL else ['fail', 'E_Other:exitcode %r' % pr.exitcode]
             elif kind == 'intruder':
                 try:
                     if op[1] == 'wrong_key':
@@ -698,7 +836,8 @@ def run_procs_case(case):
             workers[pid][0].join(20)
         del mine[:]
         gc.collect()
-        out.append(dict(final_objects=m._number_of_objects(), final_refcounts=len(ids.snapshot())))
+        out.append(dict(final_objects=m._number_of_objects(), final_refcounts=len(ids.snapshot()),
+                        expected_leaked=len(set(leaked))))
     finally:
         for pr, c in workers.values():
             if pr.is_alive():
